@@ -27,7 +27,7 @@ from fractions import Fraction
 import numpy as np
 
 PROP = 'C08'
-TARGETS = ['T9a', 'T9b', 'T9c', 'T9d', 'T9e', 'T9f', 'T9g', 'T9h', 'T9i', 'T9j', 'T9k', 'T9l', 'T9m', 'T9n', 'T9o', 'T10a', 'T10b', 'T10c', 'T10d']
+TARGETS = ['T9a', 'T9b', 'T9c', 'T9d', 'T9e', 'T9f', 'T9g', 'T9h', 'T9i', 'T9j', 'T9k', 'T9l', 'T9m', 'T9n', 'T9o', 'T9p', 'T9q', 'T10a', 'T10b', 'T10c', 'T10d']
 LEAN_MODULES = ['HdVerif.Props.C08']
 MODEL_MODULES = ['HdVerif.Model.Volume', 'HdVerif.Model.VolumeMore']
 NAMESPACE = 'HdVerif.C08'
@@ -1080,7 +1080,7 @@ def random_conveniences(ctx, spec, v, g, r, exact, reqs, pending):
 
 ACCESSORS = ['position', 'spacing', 'pixel_spacing', 'spacing_between_slices', 'direction_cosines', 'direction',
              'spacing_vectors', 'unit_vectors', 'voxel_volume', 'physical_extent', 'physical_volume', 'center_indices',
-             'nearest_center_indices', 'affine']
+             'nearest_center_indices', 'affine', 'center_position']
 
 
 def _flat(x):
@@ -1091,7 +1091,7 @@ def _flat(x):
     return [x]
 
 
-def accessors_check(ctx, spec, obj, who, exact, reqs, pending):
+def accessors_check(ctx, spec, obj, who, exact, reqs, pending, r_conv=None, conv_spelling=None):
     """Oracle: every accessor recomputed from `affine` and `spatial_shape` by independent numpy; recomposition
     position + direction @ (spacing * index) = map_indices_to_reference(index); model: the regenerated accessor expressions."""
     case = {'hist': spec['idx'], 'step': 'end', 'op': {'op': 'accessors', 'on': who}}
@@ -1115,8 +1115,36 @@ def accessors_check(ctx, spec, obj, who, exact, reqs, pending):
         'physical_volume': [float(np.prod(norms)) * float(np.prod(shp))],
         'center_indices': [(n - 1) / 2 for n in shp], 'nearest_center_indices': [(n - 1) // 2 for n in shp],
         'affine': a[:3].reshape(-1).tolist(),
+        'center_position': (a[:3, :3] @ np.array([(n - 1) / 2 for n in shp]) + a[:3, 3]).tolist(),
     }
+    # get_affine(output_convention): the same physical points, coordinates along the three directions of the convention
+    conv = r_conv if r_conv is not None else 'LPH'
+    unitv = {'L': (0, 1.0), 'R': (0, -1.0), 'P': (1, 1.0), 'A': (1, -1.0), 'H': (2, 1.0), 'F': (2, -1.0)}
+    want_conv = np.array([unitv[ch][1] * a[unitv[ch][0]] for ch in conv])
+    spell = conv_spelling or 'str'
+    if spell == 'list':
+        carg = list(conv)
+    elif spell == 'enum':
+        from highdicom.enum import PatientOrientationValuesBiped as P_
+        carg = tuple(P_(ch) for ch in conv)
+    else:
+        carg = conv
+    try:
+        got_conv = obj.get_affine(carg)
+        if not np.array_equal(got_conv[:3], want_conv) or not np.array_equal(got_conv[3], np.array([0.0, 0.0, 0.0, 1.0])):
+            ctx.fail(case, {'what': f'get_affine({conv!r}) is not the affine with the rows of the convention', 'got': got_conv.tolist(),
+                            'want': want_conv.tolist()}, site='get_affine')
+        if not np.array_equal(obj.get_affine(None), a):
+            ctx.fail(case, {'what': 'get_affine(None) is not the affine'}, site='get_affine')
+        if np.shares_memory(got_conv, obj._affine):
+            ctx.fail(case, {'what': 'get_affine returns memory of the object'}, site='get_affine')
+    except Exception as e:  # noqa: BLE001
+        ctx.fail(case, {'what': f'get_affine({conv!r}) raised {type(e).__name__}: {e}'[:200]}, site='get_affine')
+        got_conv = None
+    ctx.hist('get_affine_convention', f'{spell}')
     for name in ACCESSORS:
+        if name == 'center_position':
+            got[name] = _flat(obj.center_position)
         g_, w_ = np.asarray(got[name], dtype=np.float64), np.asarray(want[name], dtype=np.float64)
         if g_.shape != w_.shape or not np.allclose(g_, w_, rtol=2.0 ** -45, atol=2.0 ** -45):
             ctx.fail(case, {'what': f'accessor {name} is not what the affine / shape say', 'got': got[name], 'want': want[name]}, site=site)
@@ -1160,7 +1188,10 @@ def accessors_check(ctx, spec, obj, who, exact, reqs, pending):
     if any(not (0 <= k < n) for k, n in zip(nc, shp)):
         ctx.fail(case, {'what': 'nearest_center_indices is not a voxel', 'got': nc, 'shape': shp}, site=site)
     ctx.case(op='accessors', outcome='ok', nontrivial_key=('accessors', who, spec['idx']), accessor_on=who)
-    reqs.append(('accessors', _geom_req(obj)))
+    mreq = _geom_req(obj)
+    mreq['conv'] = ['LRPAHF'.index(ch) for ch in conv]
+    got['get_affine'] = [] if got_conv is None else got_conv[:3].reshape(-1).tolist()
+    reqs.append(('accessors', mreq))
     pending.append({'extra': 'accessors', 'case': case, 'exact': exact,
                     'impl': {k: ([int(x) for x in v_] if k == 'nearest_center_indices' else [_frac_str(x) for x in v_])
                              for k, v_ in got.items()},
@@ -1279,10 +1310,11 @@ def end_of_history(ctx, spec, v, g, r, exact, reqs, pending):
     u = r.random()
     if u < 0.5:
         random_conveniences(ctx, spec, v, g, r, exact, reqs, pending)
+    rc_, cs_ = r.choice(ORIENTATIONS), r.choice(['str', 'list', 'enum'])
     if r.random() < 0.5:
-        accessors_check(ctx, spec, v, 'volume', exact, reqs, pending)
+        accessors_check(ctx, spec, v, 'volume', exact, reqs, pending, rc_, cs_)
     elif r.random() < 0.3:
-        accessors_check(ctx, spec, g, 'geometry', exact, reqs, pending)
+        accessors_check(ctx, spec, g, 'geometry', exact, reqs, pending, rc_, cs_)
     if r.random() < 0.6:
         inverse_pairs(ctx, spec, v, g, r, exact)
     if r.random() < 0.15:
@@ -1318,8 +1350,8 @@ def compare_extra(ctx, pend, ans):
     impl = pend['impl']
     if mo['left_handed'] != pend['left_handed']:
         ctx.disagree('L0', case, pend['left_handed'], mo['left_handed'], 'handedness')
-    rootless = ['position', 'spacing_vectors', 'affine', 'center_indices']
-    names = ACCESSORS if mo['exact_sqrt'] else rootless + ['nearest_center_indices']
+    rootless = ['position', 'spacing_vectors', 'affine', 'center_indices', 'center_position', 'get_affine']
+    names = (ACCESSORS + ['get_affine']) if mo['exact_sqrt'] else rootless + ['nearest_center_indices']
     ctx.hist('accessor_model', 'all (exact square roots)' if mo['exact_sqrt'] else 'root-free accessors only')
     for name in names:
         a, b = impl[name], mo[name]
@@ -1327,7 +1359,10 @@ def compare_extra(ctx, pend, ans):
             if a != b:
                 ctx.disagree('L0', case, a, b, 'accessor nearest_center_indices')
             continue
-        tight = pend['exact'] or name in rootless
+        if b is None:
+            ctx.disagree('L0', case, {name: a}, {name: None}, f'accessor {name}: the model has no such convention')
+            return
+        tight = (pend['exact'] or name in rootless) and name != 'center_position' or (pend['exact'] and name == 'center_position')
         if len(a) != len(b) or any(not _close(x, y, tight) for x, y in zip(a, b)):
             ctx.disagree('L0', case, {name: a}, {name: b}, f'accessor {name}')
             return
